@@ -13,8 +13,9 @@ behaviour) and every command also on a *direct* copy of the store (`Mem.step`, n
   enter fast|locked|serializable dec@<o>    the decorator form with the shared object <o> as the decorator (`@T[o]`): `__call__`
                                             builds a new object per call and does not touch `T[o]` — same model event
   enter fast|locked|serializable @<o>       a block on the shared context object number <o> (`async with T[o]:`)
-  exit ok|exc
-  rollback | commitnow          explicit `tx.rollback()` / `tx.commit()`
+  exit ok|exc|base|cancel       the block is left normally / by an `Exception` / by a `BaseException` that is not an
+                                `Exception` / by `asyncio.CancelledError` delivered at a suspension point inside the body
+  rollback | commitnow          explicit `tx.rollback()` / `tx.commit()` (anywhere in a body, commands may follow)
   <command>                     as in the C01 driver
 
 Answers: `tx=<out> direct=<out> b=<backend live view> d=<direct live view>`; the lines that end a
@@ -58,6 +59,10 @@ def parseOp? : List String → Option Op
 def parseMode? (s : String) : Option TxMode :=
   if s = "fast" then some .fast else if s = "locked" then some .locked
   else if s = "serializable" then some .serializable else none
+
+def parseLeave? (s : String) : Option Leave :=
+  if s = "ok" then some .ok else if s = "exc" then some .error else if s = "base" then some .base
+  else if s = "cancel" then some .cancelled else none
 
 /-- insertion sort by key (tiny lists) -/
 def insertKey (x : Nat × Entry) : List (Nat × Entry) → List (Nat × Entry)
@@ -124,9 +129,11 @@ def step (s : St) (line : String) : St × String :=
       | none => (s, "bad-op")
       | some o => enterStep s m (some o)
   | ["exit", how] =>
-    if how ≠ "ok" ∧ how ≠ "exc" then (s, "bad-op") else
+    match parseLeave? how with
+    | none => (s, "bad-op")
+    | some how =>
     let outer := s.ctx.frames.length = 1
-    let (c', o) := s.ctx.step (.exit (how = "exc"))
+    let (c', o) := s.ctx.step (.exit how)
     let s1 := { s with ctx := c' }
     if outer then
       let (s2, n) := closeSeg s1
